@@ -64,7 +64,7 @@ var builtinSyms = map[string]bool{
 	"any-nil": true, "any-str": true, "any-int": true, "any-bool": true, "any-ref": true, "any-slice": true, "any-opq": true,
 	"a-str": true, "a-int": true, "a-bool": true, "a-ref": true, "a-slice": true, "a-opq": true,
 	"a-stag": true, "a-itag": true, "a-btag": true, "a-rtag": true, "a-sltag": true, "a-otag": true,
-	"any-tag": true, "any-wf": true, "tag-kind": true, "tag-uncomparable": true, "go-div": true, "go-mod": true,
+	"any-tag": true, "any-wf": true, "tag-kind": true, "no-trigger": true, "tag-uncomparable": true, "go-div": true, "go-mod": true,
 	"is": true, "_": true, "str.len": true, "str.++": true, "str.at": true, "str.substr": true, "str.contains": true,
 	"str.prefixof": true, "str.suffixof": true, "str.indexof": true, "str.to_code": true, "str.from_code": true,
 	"str-itoa": true, "itoa-inv": true, "any-fmt": true, "err-msg": true, "pattern": true,
